@@ -952,6 +952,7 @@ func (c *controlPlaneCore) ReleaseUdpConnStateTuples(keys []bpfTuplesKey) error 
 	}
 	releases := tracker.BeginRelease(keys)
 	defer tracker.FinalizeRelease(releases)
+	verifYield("releaseConnState.afterBeginRelease", c)
 	if len(releases) == 0 {
 		return nil
 	}
@@ -964,6 +965,7 @@ func (c *controlPlaneCore) ReleaseUdpConnStateTuples(keys []bpfTuplesKey) error 
 		deleteKeys = append(deleteKeys, release.key)
 	}
 	_, err := BpfMapBatchDelete(bpf.ConnStateMap, deleteKeys)
+	verifYield("releaseConnState.afterKernelDelete", c)
 	return err
 }
 
